@@ -349,6 +349,36 @@ def fold_fillcmd(ctx, model):
         def sym_getattr(self, ev, name, node, mod):
             return BoundLib(f"sio.{name}", self)
 
+    class InTable(str):
+        """the table as parsed from the file (what is handed to fill_cij): compares equal to the marker 'TABLE'"""
+        cols = TABLE_A.splitlines()[2].split()
+
+        def sym_getattr(self, ev, name, node, mod):
+            if name == "copy":
+                return BoundLib("intable.copy", self)
+            if name == "columns":
+                return Tup(list(self.cols), "list")
+            if name == "to_string":
+                return BoundLib("intable.to_string", self)
+            raise ev.err(f"attribute {name} of the parsed table", node, mod)
+
+        def sym_subscript(self, ev, idx, n, mod):
+            if isinstance(idx, Tup) and all(isinstance(c, str) for c in idx.items):
+                return Mixed("columns of the unfilled input table")
+            raise ev.err("subscript on the parsed table", n, mod)
+
+    class Mixed:
+        """a table that is not (only) what fill_cij returned"""
+        def __init__(self, what):
+            self.what = what
+
+        def sym_getattr(self, ev, name, node, mod):
+            if name == "to_string":
+                return BoundLib("mixed.to_string", self)
+            if name == "columns":
+                return Tup(list(InTable.cols), "list")
+            raise ev.err(f"attribute {name} of a re-assembled table", node, mod)
+
     class Filled:
         """the table fill_cij returns: the columns of the input table in their order (the volume column first), filled components appended"""
         def __init__(self, cols=None):
@@ -390,7 +420,7 @@ def fold_fillcmd(ctx, model):
         src_ = a[0] if a else k.get("filepath_or_buffer")
         cap.update(table_text=getattr(src_, "text", None), read_kw={kk: k.get(kk) for kk in ("header", "index_col", "sep", "delim_whitespace")})
         kw_accept(k, "engine", lambda v: True)
-        return "TABLE"
+        return InTable("TABLE")
 
     intr = io_intrinsics({"in.dat": TABLE_A}, [])
     intr.update({
@@ -400,6 +430,10 @@ def fold_fillcmd(ctx, model):
         "cij.util.fill:fill_cij": fill_cij,
         "filled.to_string": lambda ev, a, k: cap.update(to_string=dict(k), printed_cols=list(a[0].cols)) or "<FILLED TABLE>",
         "filled.copy": lambda ev, a, k: Filled(a[0].cols),
+        "intable.copy": lambda ev, a, k: InTable("TABLE"),
+        "intable.to_string": lambda ev, a, k: cap.update(to_string=dict(k), printed_cols=list(InTable.cols)) or "<UNFILLED INPUT TABLE>",
+        "mixed.to_string": lambda ev, a, k: cap.update(to_string=dict(k), printed_cols=list(InTable.cols)) or f"<TABLE RE-ASSEMBLED FROM {a[0].what}>",
+        "pandas.concat": lambda ev, a, k: (k.all(), Mixed("pieces: " + ", ".join(getattr(x, "what", type(x).__name__) for x in ev.iterate(a[0], None, None))))[1],
     })
     ev = Ev(model, {}, intr, ctx=ctx)
     try:
